@@ -2,6 +2,58 @@ package larking
 
 func init() {
 	vfHarnesses["VerifH_addRule_sym"] = VerifH_addRule_sym
+	vfHarnesses["VerifH_addRule_mut"] = VerifH_addRule_mut
+}
+
+// vfBaseTemplates: valid templates (as token lists) covering every construct of the grammar:
+// single-character, dotted and hyphenated literals, nested field paths, multi-segment variable
+// patterns, '**', verbs (also dotted).
+var vfBaseTemplates = [][]string{
+	{"/", "aa", "/", "{", "f", "}"},
+	{"/", "aa", "/", "{", "f", "=", "bb", "/", "*", "}", ":", "vv"},
+	{"/", "{", "h", ".", "k", "}", "/", "bb"},
+	{"/", "aa", "/", "{", "f", "=", "bb", "/", "**", "}"},
+	{"/", "{", "f", "=", "aa", "/", "*", "/", "bb", "}", "/", "{", "g", "}"},
+	{"/", "aa", "/", "**"},
+	{"/", "a", "/", "b.c", "/", "d-e_f", ":", "x.y"},
+	{"/", "v1", "/", "{", "f", "=", "msgs", "/", "*", "}", "/", "{", "h", ".", "c", "}", ":", "get"},
+}
+
+var vfReplacements = []string{"", "*", "**", "aa", "{g}", "{", "}", "=", ".", ":", "/", "{h.k}", "1", "f", "x.y", "{g=*}"}
+
+// VerifH_addRule_mut (C16, C09): every single-token substitution / insertion applied to the base
+// templates (single-edit mutations of valid templates, incl. multi-character tokens such as a
+// whole variable), registered with the real addRule and compared with the reference grammar.
+func VerifH_addRule_mut() {
+	in := schemaRoute()
+	out := newFakeMD("vf.Resp", strField("r"))
+	d0 := &fakeMethod{full: "vf.S.M0", in: in, out: out}
+	d1 := &fakeMethod{full: "vf.S.M1", in: in, out: out}
+	root := newPath()
+	pre := vfBool()
+	if pre {
+		if err := root.addRule(vfHTTPRule("GET", "/aa/{g}"), d1, "/vf.S/M1"); err != nil {
+			vfFail("setup rule rejected")
+		}
+	}
+	base := vfBaseTemplates[vfChoice(len(vfBaseTemplates))]
+	i := vfChoice(len(base) + 1)
+	rep := vfReplacements[vfChoice(len(vfReplacements))]
+	insert := vfBool()
+	tmpl := ""
+	for j, tok := range base {
+		if j == i {
+			tmpl += rep
+			if !insert {
+				continue
+			}
+		}
+		tmpl += tok
+	}
+	if i == len(base) {
+		tmpl += rep
+	}
+	vfCheckAddRule(root, d0, tmpl, pre)
 }
 
 func vfFieldResolves(f string) bool {
@@ -23,6 +75,11 @@ func VerifH_addRule_sym() {
 		}
 	}
 	tmpl := vfAsciiString(vfLen(vfBound(8, 10)))
+	vfCheckAddRule(root, d0, tmpl, pre)
+}
+
+// vfCheckAddRule registers tmpl for method d0 and compares the outcome with the reference grammar.
+func vfCheckAddRule(root *path, d0 *fakeMethod, tmpl string, pre bool) {
 	err := root.addRule(vfHTTPRule("GET", tmpl), d0, "/vf.S/M0")
 	t, st := refParseTemplate(tmpl)
 	switch st {
